@@ -11,6 +11,24 @@ E3 = "bounded exhaustive enumeration of inputs/programs/configurations executed 
 
 # pid -> (technique, level text, level note, design ref)
 CHECKS = {
+    "C06": (
+        E1,
+        "Weighted-sum formula over 2-3 streams whose values encode their timestamps; every interleaving of per-stream deliveries "
+        "(order kept) and of the consumer starting the engine at quiescence, delivery between loop iterations and asyncio.wait "
+        "done-set orders as bounded deviations; engines built with FormulaBuilder, the composition API and FormulaEngine3Phase; "
+        "every output decodes to inputs of its own timestamp, timestamps consecutive from the latest first-timestamp, all common "
+        "timestamps emitted.",
+        "Receiver backlog stays within capacity; asyncio FIFO order kept; done-set order owned by a harness-side asyncio.wait wrapper.",
+        "DESIGN.md §3 C06",
+    ),
+    "C19": (
+        E1 + " (exhaustive fault sequences)",
+        "Formula p + o with a lazily started fallback for p on the virtual loop: all 3^L primary sequences (valid/None/NaN) x 2^L "
+        "fallback sequences x fallback-before/after-primary x primary closed at every position (L = 5-6): outside the precisely "
+        "stated start-up window the output equals the primary if valid, else the fallback, else None; one output per timestamp in order.",
+        "Harness fallback fetcher with the lazy-start contract of the SDK's; start-up window as stated in the evidence assumptions.",
+        "DESIGN.md §3 C19",
+    ),
     "C05": (
         E3 + " (programs), each program executed on the real streaming path under the virtual loop",
         "Every expression tree with up to 3 operator nodes (binary + - * / max min, unary consumption/production, constants, "
